@@ -13,7 +13,7 @@ import (
 
 func init() {
 	register("C13", "Structural clauses of cp -a preservation, decided on all paths of the copier: metadata (owner, mode, times, then xattrs) is applied after the entry's content and, for directories, after the children; inside copyFileInfo the owner change precedes the mode change which precedes the timestamps, the mode change is skipped for symlinks, the owner is the Chowner's answer for the source uid/gid and the mode comes from the source, the symbolic set or the octal option; timestamps use the option or the source's atime/mtime without following links; regular files consult the per-copier inode map and link on a hit; xattrs use only the no-follow calls and route every error through the handler; created parents are chowned, timed and recorded; every non-directory written passes the single change notification. Does not decide tree equality, numeric mode semantics or hard-link identity at run time.", runC13)
-	register("C14", "Structural clauses of copy containment (package copy, every non-windows build): every filesystem call of the package is classified and a symlink-following call occurs only at tabled sites whose precondition is re-checked (root-resolved arguments, Lstat-classified directories, a target emptied first, a not-symlink guard); UtimesNanoAt carries AT_SYMLINK_NOFOLLOW; every path Copy hands on derives from fs.RootPath / rootPath; inspection of source and target is Lstat-based; the target is emptied (checked) before anything is created on the non-directory arms. Does not decide races, fs.RootPath itself or wildcard expansion.", runC14)
+	register("C14", "Structural clauses of copy containment (package copy, every non-windows build): every filesystem call of the package is classified and a symlink-following call occurs only at tabled sites whose precondition is re-checked (root-resolved arguments, Lstat-classified directories, a target emptied first, a not-symlink guard); UtimesNanoAt carries AT_SYMLINK_NOFOLLOW; every path Copy hands on derives from fs.RootPath / rootPath; inspection of source and target is Lstat-based; the target is emptied (checked) before anything is created on the non-directory arms. rootPath anchors its argument at "/" before splitting it. Does not decide races, fs.RootPath itself or wildcard expansion.", runC14)
 	register("C15", "The one clause of the overlay rules with a structural form: the only destructive calls of package copy are os.Remove behind an Lstat-says-not-a-directory test and os.RemoveAll behind always-replace && target exists && not (both directories); a directory meeting a non-directory returns an error and touches nothing. Destination path selection, merge semantics, wildcards, trailing separators and idempotence are value-level and declined.", runC15)
 }
 
@@ -42,6 +42,83 @@ func runC14(c *Ctx) {
 		// outside it, so the mode is never applied to links (shared with C13)
 		r13_2(c, "R14.6")
 	}
+	r14_7(c, "R14.7")
+}
+
+// R14.7: the source argument is anchored at "/" before it is taken apart.
+//
+// rootPath resolves only the directory part below the root when links are
+// not followed; the last component is re-attached as spelled. A ".." that
+// survives as last component steps out of the root. filepath.Join("/", p)
+// removes it: what is split and what is resolved is the joined value.
+func r14_7(c *Ctx, rule string) {
+	c.R.Rule(rule, "copy.rootPath: the path that is split, resolved and compared is filepath.Join(\"/\", p), never the argument as spelled")
+	fn := c.Fn(rule, "copy.rootPath")
+	if fn == nil {
+		return
+	}
+	var pp *ssa.Parameter
+	for _, q := range fn.Params {
+		if c.P.ParamName(q) == "p" {
+			pp = q
+		}
+	}
+	if pp == nil {
+		c.R.Missing(rule, "path parameter of copy.rootPath")
+		return
+	}
+	isAnchor := func(v ssa.Value) bool {
+		parts, ok := c.joinParts(v)
+		if !ok || len(parts) != 2 {
+			return false
+		}
+		return (parts[0] == "c:/" || parts[0] == "c:\\") && strings.Contains(parts[1], "p")
+	}
+	anchored := 0
+	eng.Instrs(fn, func(in ssa.Instruction) {
+		if v, ok := in.(ssa.Value); ok && isAnchor(v) {
+			anchored++
+		}
+	})
+	if anchored == 0 {
+		c.R.Fail(rule, c.name(fn)+"/anchored", c.P.Pos(fn.Pos()), "rootPath no longer joins its path argument with \"/\": a trailing '..' survives as the last component and is re-attached after the directory part was resolved - the result lies outside the root")
+		return
+	}
+	// every other use of the parameter is the anchoring itself
+	bad := 0
+	var where ssa.Instruction
+	for _, r := range eng.Referrers(pp) {
+		// (the varargs array of Join, or a store into the parameter's cell)
+		ok := false
+		switch x := r.(type) {
+		case *ssa.Store:
+			if ia, isIA := x.Addr.(*ssa.IndexAddr); isIA {
+				for _, r2 := range eng.Referrers(ia.X) {
+					if sl, isSl := r2.(*ssa.Slice); isSl {
+						for _, r3 := range eng.Referrers(sl) {
+							if call, isC := r3.(*ssa.Call); isC && isAnchor(call) {
+								ok = true
+							}
+						}
+					}
+				}
+			}
+			if _, isAl := x.Addr.(*ssa.Alloc); isAl {
+				ok = true // spilled parameter: its loads are looked at below
+			}
+		case *ssa.DebugRef:
+			ok = true
+		}
+		if !ok {
+			bad++
+			where = r
+		}
+	}
+	if bad > 0 {
+		c.R.Fail(rule, c.name(fn)+"/only-anchored-uses", c.pos(where), "rootPath uses its path argument as spelled next to the anchored form")
+	} else {
+		c.R.OK(rule, c.name(fn)+"/only-anchored-uses", c.P.Pos(fn.Pos()), "the argument is only used to form filepath.Join(\"/\", p)")
+	}
 }
 
 func runC15(c *Ctx) {
@@ -50,6 +127,50 @@ func runC15(c *Ctx) {
 	// repeating a copy: every creating call meets an emptied target (shared with C14)
 	r14_4(c, "R15.3")
 	r15_4(c, "R15.4")
+	r15_5(c, "R15.5")
+}
+
+// R15.5: MkdirAll never mistakes something else for the directory it was
+// asked for.
+//
+// "A destination path ending in a separator names a directory" rests on
+// MkdirAll failing when a non-directory sits there. Its success returns are
+// reachable only through a directory test that came out true or a successful
+// os.Mkdir: with every IsDir() false and Mkdir failing there is no way to
+// succeed.
+func r15_5(c *Ctx, rule string) {
+	c.R.Rule(rule, "copy.MkdirAll: no success return is reachable when every directory test of an existing entry says 'not a directory' and os.Mkdir fails: an existing non-directory is an error, never 'already there'")
+	fn := c.Fn(rule, "copy.MkdirAll")
+	if fn == nil {
+		return
+	}
+	x := c.explorer(fn)
+	as := map[string]bool{}
+	n := 0
+	for _, call := range c.P.CallsTo(fn, "(io/fs.FileInfo).IsDir", "(io/fs.FileMode).IsDir") {
+		if cl, ok := call.(*ssa.Call); ok {
+			as[x.KeyAtEntry(cl)] = false
+			n++
+		}
+	}
+	mk := 0
+	for _, call := range c.P.CallsTo(fn, "os.Mkdir") {
+		k, _, _ := c.errValueOf(call)
+		as["("+k+"==nil)"] = false
+		mk++
+	}
+	// the recursive call for the parent succeeds (the parent is there)
+	c.R.Floor(rule, "directory tests in MkdirAll", n, 2)
+	c.R.Floor(rule, "os.Mkdir calls in MkdirAll", mk, 1)
+	hit, und := c.SuccessAvoiding(fn, nil, as, nil, nil)
+	switch {
+	case und:
+		c.R.Undecided(rule, c.name(fn)+"/nondir-is-an-error", c.P.Pos(fn.Pos()), "state limit")
+	case hit != nil:
+		c.R.Fail(rule, c.name(fn)+"/nondir-is-an-error", c.pos(hit.Instr), "MkdirAll can succeed although nothing it looked at was a directory and nothing was created: an existing file at 'name/' counts as the directory, and the copy then replaces it; path "+eng.BlockTrace(fn, hit.Trace))
+	default:
+		c.R.OK(rule, c.name(fn)+"/nondir-is-an-error", c.P.Pos(fn.Pos()), "success needs a positive directory test or a successful Mkdir")
+	}
 }
 
 // R15.2 / R14.5: an existing non-directory at the target is removed, never
